@@ -2,5 +2,6 @@ SPECIFICATION Spec
 CONSTANTS
   MaxItems = 3
   Items <- AllItems
+  Wrap = "prog"
   DumpMod = 1
 CONSTRAINT Dump
